@@ -11,10 +11,10 @@ MANIFEST = dict(
     technique='Lean 4 proof (fun_induction over a timed state-machine model) + differential correspondence run under virtual time',
     design='5/C01',
 )
-GEN = ["Timing", "Errors"]
+GEN = ["Timing", "Errors", "AwaitChain"]
 THEOREMS = [
     "c01_result_sound", "c01_never_foreign", "c01_foreign_kinds", "c01_timeout_complete",
-    "c01_complete", "c01_single_request_written", "c01_id_type_sensitive", "c01_siblings_independent",
+    "c01_complete", "c01_single_request_written", "c01_id_type_sensitive", "c01_siblings_independent", "c01_chain_regenerated",
 ]
 RULE = (
     "timed histories over {matching result, matching error, same-id server request, other-id response, int/str "
@@ -59,6 +59,16 @@ class Histories(Suite):
 
     def cases(self, ctx, budget):
         out = []
+        try:
+            from .. import core
+            gen = (core.LEAN / "Verif" / "Gen" / "AwaitChain.lean").read_text()
+            if "def translatable : Bool := false" in gen:
+                msg = ("INFO property=C01 supplementary=await-chain: the loop body of _await_response is outside the translator's "
+                       "subset on this run; c01_chain_regenerated holds vacuously (classify is still compared with the running code)")
+                print(msg)
+                ctx.notes.append(msg)
+        except Exception:
+            pass
         if budget == "quick":
             out += list(G.exhaustive(ALPHA, 3, [1024], IDS))
             n = 8000
